@@ -186,7 +186,7 @@ def run_tlc(pid, name, module, cfg_text, workers=4, env=None, timeout=900, simul
     cmd = ["java", "-XX:+UseParallelGC", "-Xmx" + xmx, "-cp",
            "/opt/veriftools/tla/tla2tools.jar:/opt/veriftools/tla/CommunityModules-deps.jar",
            "tlc2.TLC", "-workers", str(workers), "-metadir", os.path.join(wd, "md"),
-           "-cleanup", "-noGenerateSpecTE", "-config", cfg]
+           "-cleanup", "-noGenerateSpecTE", "-checkpoint", "0", "-config", cfg]      # (the depth-first queue cannot be checkpointed)
     if coverage:
         cmd += ["-coverage", "1"]
     if simulate:
